@@ -107,6 +107,28 @@ def obsCase (e : Option Err) (refs : List (Option Err)) : String :=
       pList ["isany", pBool (isAnyB Full e refs)],
       pList ["isanyhalf", pBool (isAnyB Full e (refs.take (refs.length / 2)))]]
 
+/-- C04 streams: origin -> process Q lacking `unknown` -> knowing process; and origin -> knowing directly -/
+def obsCase4 (e : Err) (unknown : List Str) : String :=
+  let Q := procOf unknown
+  let w0 := encode Full vfStub e
+  let u1 := decode Q [3001] w0
+  let u2 := u1.bind (fun x => decode Q [3002] (encode Q vfStub x))
+  let k1 := u2.bind (fun x => decode Full [3003] (encode Q vfStub x))
+  let d1 := decode Full [3004] w0
+  pList ["res",
+    pList ["tree", pTree e],
+    pList ["enc0", pEnc w0],
+    pList ["utree", pOpt pTree u1],
+    pList ["uenc", pOpt (fun x => pEnc (encode Q vfStub x)) u1],
+    pList ["u2enc", pOpt (fun x => pEnc (encode Q vfStub x)) u2],
+    pList ["uacc", pOpt pAcc u1],
+    pList ["ktree", pOpt pTree k1],
+    pList ["kenc", pOpt (fun x => pEnc (encode Full vfStub x)) k1],
+    pList ["kacc", pOpt pAcc k1],
+    pList ["dtree", pOpt pTree d1],
+    pList ["denc", pOpt (fun x => pEnc (encode Full vfStub x)) d1],
+    pList ["dacc", pOpt pAcc d1]]
+
 def runLine (line : String) : String :=
   match parseLine line with
   | some [.sym id, .list [.sym "case", rx, .list refs]] =>
@@ -118,6 +140,12 @@ def runLine (line : String) : String :=
       match evalRefs fuel e refs with
       | .inl _ => id ++ " (bad refs)"
       | .inr rs => id ++ " " ++ obsCase e rs
+  | some [.sym id, .list [.sym "case4", rx, .list unk]] =>
+    match evalR line.length rx with
+    | .ok (some e) => id ++ " " ++ obsCase4 e (unk.filterMap sxStr)
+    | .ok none => id ++ " (res (nil))"
+    | .panic => id ++ " (res (panic))"
+    | .bad why => id ++ " (bad " ++ why ++ ")"
   | some [.sym id, .list [.sym "decode", wx]] =>
     match sxEnc wx with
     | none => id ++ " (bad wire)"
